@@ -128,7 +128,9 @@ def run(ctx):
         return f, text, mpgen.generate_spec(root / spec["law"], spec, text, ["c"])
     for (tag, decl, doc), text, r in vfcore.pmap(form, FORMS):
         ctx.count("front-end-forms")
-        if r.rc != 0:
+        if mpgen.tool_unavailable(r):
+            ctx.inconc("mfront could not be run (tree being rebuilt?): rc=%s %s" % (r.rc, r.err[-300:]))
+        elif r.rc != 0:
             ctx.violation("mfront:%s:does-not-generate" % tag,
                           "mfront refuses `%s` (%s): %s" % (decl.replace("\n", " "), doc, " / ".join((r.out + r.err).strip().splitlines()[1:3])),
                           {"mfront": text, "output": (r.out + r.err)[-1500:]})
@@ -147,8 +149,8 @@ def run(ctx):
         ctx.add_distinct(vfcore.sha(p["text"]))
         ctx.count("programs:" + p["spec"]["kind"])
         ctx.count("stratum:" + stratum(p["spec"]))
-        if r.timed_out:
-            ctx.inconc("mfront watchdog fired on %s" % mpgen.fname(p["spec"]))
+        if r.timed_out or mpgen.tool_unavailable(r):
+            ctx.inconc("mfront could not be run on %s (watchdog, or tree being rebuilt): rc=%s %s" % (mpgen.fname(p["spec"]), r.rc, r.err[-300:]))
             continue
         if r.rc != 0:
             ctx.violation("mfront:%s:does-not-generate" % build_key(p["spec"]),
@@ -164,7 +166,9 @@ def run(ctx):
         p = progs[k]
         p["res"][i] = res
         ctx.count("compiled:%s:%s" % (i, res["stage"]))
-        if res["stage"] != "ok":
+        if res["stage"] != "ok" and mpgen.link_race(res["log"]):
+            ctx.inconc("compilation disturbed by a concurrent rebuild of the TFEL libraries: %s" % mpgen.first_error(res["log"]))
+        elif res["stage"] != "ok":
             ctx.violation("%s:%s:does-not-compile" % (i, build_key(p["spec"])),
                           "the %s source generated from %s.mfront does not compile: %s" % (i, mpgen.fname(p["spec"]), mpgen.first_error(res["log"])),
                           {"mfront": p["text"], "interface": i, "compiler": res["log"][-2500:]})
